@@ -1,4 +1,55 @@
 //! One static archive for the C++ drivers: the binding under test
-//! (resolvo_cpp, built from /repo's working tree) and nothing else.  The
-//! `extern "C"` symbols of resolvo_cpp are exported by the archive.
+//! (resolvo_cpp, built from /repo's working tree) plus a few `extern "C"`
+//! helpers that perform container operations on the RUST side of the FFI, so
+//! that the copy-on-write protocol is exercised from both sides (C17).
 pub use resolvo_cpp::*;
+
+use resolvo_cpp::verif::{String as RString, Vector};
+use std::ffi::c_void;
+
+macro_rules! vec_ffi {
+    ($clone:ident, $push:ident, $from:ident, $consume:ident, $t:ty, $mk:expr) => {
+        /// Rust-side copy: `out` (a default vector) becomes a clone of `src`
+        #[no_mangle]
+        pub extern "C" fn $clone(src: &Vector<$t>, out: &mut Vector<$t>) {
+            *out = src.clone();
+        }
+        /// Rust-side push (detaches a shared buffer first)
+        #[no_mangle]
+        pub extern "C" fn $push(v: &mut Vector<$t>, x: u32) {
+            v.push($mk(x));
+        }
+        /// Rust-side construction from values (FromIterator)
+        #[no_mangle]
+        pub unsafe extern "C" fn $from(vals: *const u32, n: usize, out: &mut Vector<$t>) {
+            let s = if n == 0 { &[][..] } else { std::slice::from_raw_parts(vals, n) };
+            // an iterator without size hint, so that the growth path of from_iter runs
+            *out = s.iter().copied().filter(|_| true).map($mk).collect();
+        }
+        /// Ownership of the vector passes to Rust, which reads k elements through
+        /// into_iter and drops the rest.  `raw` is the vector's single pointer field.
+        #[no_mangle]
+        pub unsafe extern "C" fn $consume(raw: *mut c_void, k: usize) -> usize {
+            let v: Vector<$t> = std::mem::transmute::<*mut c_void, Vector<$t>>(raw);
+            let mut it = v.into_iter();
+            let mut n = 0;
+            for _ in 0..k {
+                if it.next().is_some() {
+                    n += 1;
+                }
+            }
+            drop(it);
+            n
+        }
+    };
+}
+
+vec_ffi!(verif_vec_u32_clone, verif_vec_u32_push, verif_vec_u32_from, verif_vec_u32_consume, u32, |x: u32| x);
+vec_ffi!(
+    verif_vec_str_clone,
+    verif_vec_str_push,
+    verif_vec_str_from,
+    verif_vec_str_consume,
+    RString,
+    |x: u32| RString::from(format!("s{x}").as_str())
+);
